@@ -29,9 +29,13 @@ def run(ctx):
     th = ctx.thorough
     m = vlib.model_check(ctx, "mc/MC_C17.tla", "mc/MC_C17_thorough.cfg" if th else "mc/MC_C17_quick.cfg", workers=8, timeout=3000,
                          coverage=True)
-    for act in ("Take", "Fail", "Send", "Finish", "WalkDone", "Recv", "ConsumerDone"):
+    for act in ("Take", "Fail", "Send", "FinishWith", "WalkDone", "Recv", "ConsumerDone"):
         if m.coverage.get(act, 0) == 0:
             raise vlib.ToolError("vacuous model: action %s never taken" % act)
+    # the witness: with the tally's read-modify-write split over two steps the model must lose an update
+    w = vlib.run_tlc(ctx, "mc/MC_C17.tla", "mc/MC_C17_witness.cfg", workers=4, timeout=600, keep_vec=False)
+    if w.violated != "Tally":
+        raise vlib.ToolError("MC_C17_witness: a split read-modify-write of the tally no longer violates Tally - the model lost its teeth")
     outdir = ctx.path("runs")
     summ = vlib.agv_ok(ctx, ["drive", "c17", "--seed", ctx.seed, "--tier", ctx.tier, "--out", outdir], timeout=3000)
     files = [os.path.join(ctx.work, f) if not f.startswith("/") else f for f in summ["files"]]
@@ -80,7 +84,7 @@ def run(ctx):
                        "seeded schedule perturbation, validated as a behaviour of Worker.tla; non-trivial = runs whose hook trace "
                        "shows at least two walker threads (each run has its own tree/thread-count/seed, so all are distinct)")
     ctx.cov["records"] = {k: summ[k] for k in ("runs", "trees", "events", "runs_with_2plus_walker_threads")}
-    ctx.cov["tlc_action_coverage"] = {k: m.coverage.get(k) for k in ("Take", "Fail", "Send", "Finish", "WalkDone", "Recv", "ConsumerDone")}
+    ctx.cov["tlc_action_coverage"] = {k: m.coverage.get(k) for k in ("Take", "Fail", "Send", "FinishWith", "WalkDone", "Recv", "ConsumerDone")}
     ctx.cov["samples"] = samples
     ctx.cov["exhaustive"] = False
     ctx.assumptions += ["faults: empty, non-UTF-8 and (thorough) oversized files; as root in this sandbox chmod 000 does not make a file "
